@@ -62,7 +62,7 @@ def build_zip(rng, epoch, opts):
         else:
             cdata = data
         # time relative to the epoch
-        rel = rng.choice(["older", "older", "equal", "grid-above", "newer", "newer", "invalid"])
+        rel = opts.get("rel") or rng.choice(["older", "older", "equal", "grid-above", "newer", "newer", "invalid"])
         ed = datetime.datetime.utcfromtimestamp(epoch)
         if rel == "older":
             t = max(DOS_LO, epoch - rng.choice([2, 3, 86400, 10 ** 8]))
@@ -168,6 +168,10 @@ def gen_cases(rng, tier):
                 zi.external_attr = 0o100644 << 16
                 z.writestr(zi, bytes((k * 13 + k // 255) % 256 for k in range(size)))
         add(bio.getvalue(), e, ["big-members"], None, file_mtime=e + 5)
+    # an epoch later than today's date (inside the DOS range) is used all the same: members later still are clamped to it, not to "now"
+    for k in range(4):
+        data, members = build_zip(rng, hd.FUTURE_EPOCH, {"rel": "newer", "n": 1 + k})
+        add(data, hd.FUTURE_EPOCH, ["future-epoch"], members, handler="zip", file_mtime=hd.FUTURE_EPOCH + 5)
     # a member the tool cannot copy (encrypted; a compression method it has no codec for): refused as a whole, in a real run and under --check
     for kind in ("encrypted", "bzip2", "lzma"):
         for chk in (False, True):
